@@ -90,12 +90,14 @@ type Machine struct {
 	ex    *Explorer
 	notes map[string]bool
 
+	prefer         []*Term  // soft constraints tried first when extracting violation models (replayability)
+	weak           []string // uninterpreted stand-ins used on this path whose violations need native confirmation
 	cfree          map[*Term]string
 	klen           map[*Term]int
 	yieldRequested bool
 	progress       int
-	side  map[string]Value
-	initd map[*ssa.Package]bool
+	side           map[string]Value
+	initd          map[*ssa.Package]bool
 }
 
 type namedTerm struct {
